@@ -203,7 +203,13 @@ def interleaving(chk: Check) -> None:
     # (b), (c) serializers
     for integ in ("generic", "rdflib"):
         for physical in (1, 2):
-            for mode in ("alternating statements", "statement of B encoded while A iterates its terms"):
+            modes = ["alternating statements", "statement of B encoded while A iterates its terms"]
+            if chk.tier == "thorough":
+                import itertools as _it
+
+                # every interleaving of the two streams' three statements each (20 schedules)
+                modes += ["schedule:" + "".join("A" if i in pos else "B" for i in range(6)) for pos in _it.combinations(range(6), 3)]
+            for mode in modes:
 
                 def scenario(it: Interp) -> Any:
                     k = K.Kit(it)
@@ -255,7 +261,15 @@ def interleaving(chk: Check) -> None:
                     k.method(sb, "enroll")
                     fa: list = []
                     fb: list = []
-                    if mode == "alternating statements":
+                    if mode.startswith("schedule:"):
+                        nxt = {"A": 0, "B": 0}
+                        for who in mode.split(":")[1]:
+                            s_, acc = (sa, fa) if who == "A" else (sb, fb)
+                            fr = k.method(s_, meth, build(seqs[who][nxt[who]]))
+                            nxt[who] += 1
+                            if fr is not None:
+                                acc.append(fr)
+                    elif mode == "alternating statements":
                         for st_a, st_b in zip(seqs["A"], seqs["B"]):
                             for s_, st, acc in ((sa, st_a, fa), (sb, st_b, fb)):
                                 fr = k.method(s_, meth, build(st))
